@@ -943,12 +943,39 @@ fn consume_either<B: BufRead>(w: &World, mut it: fastx::EitherRecords<B>, ask_ki
                     p.kind_reported = Some(Ok(k));
                 }
                 p.checks.push(r.check().is_ok());
-                p.recs.push(Rec {
-                    id: r.id().to_string(),
-                    desc: r.desc().map(|s| s.to_string()),
-                    seq: r.seq().to_vec(),
-                    qual: r.qual().map(|q| q.to_vec()).unwrap_or_default(),
-                });
+                // the record is looked at through one of the views the module offers: the Record
+                // trait on the enum, the enum's variants, or a conversion to one concrete type
+                let rec = match w.draw(5) {
+                    0 => Rec { id: r.id().to_string(), desc: r.desc().map(|s| s.to_string()), seq: r.seq().to_vec(), qual: r.qual().map(|q| q.to_vec()).unwrap_or_default() },
+                    1 => match r {
+                        fastx::EitherRecord::FASTA(f) => from_fa(&f),
+                        fastx::EitherRecord::FASTQ(q) => from_fq(&q),
+                    },
+                    2 => {
+                        // to a FASTA record: qualities are dropped by the conversion, taken from the trait before
+                        let qual = r.qual().map(|q| q.to_vec()).unwrap_or_default();
+                        let f = if w.chance(1, 2) { r.to_fasta() } else { r.into() };
+                        Rec { qual, ..from_fa(&f) }
+                    }
+                    3 => {
+                        // to a FASTQ record: a FASTA record gets the default quality for every base
+                        let was_fasta = k == Kind::Fasta;
+                        let q = r.to_fastq(b'I');
+                        let mut rec = from_fq(&q);
+                        if was_fasta && rec.qual == vec![b'I'; rec.seq.len()] {
+                            rec.qual.clear();
+                        }
+                        rec
+                    }
+                    _ => {
+                        // through the concrete types' own Record impls
+                        match &r {
+                            fastx::EitherRecord::FASTA(f) => Rec { id: fastx::Record::id(f).to_string(), desc: fastx::Record::desc(f).map(|s| s.to_string()), seq: fastx::Record::seq(f).to_vec(), qual: fastx::Record::qual(f).map(|q| q.to_vec()).unwrap_or_default() },
+                            fastx::EitherRecord::FASTQ(q) => Rec { id: fastx::Record::id(q).to_string(), desc: fastx::Record::desc(q).map(|s| s.to_string()), seq: fastx::Record::seq(q).to_vec(), qual: fastx::Record::qual(q).map(|x| x.to_vec()).unwrap_or_default() },
+                        }
+                    }
+                };
+                p.recs.push(rec);
             }
             Err(e) => {
                 let eintr = match &e {
